@@ -503,6 +503,49 @@ def r01_5(ctx: Ctx) -> None:
            form=txt(site[0]) if site else "")
 
 
+def _derived_from_options(func: ast.AST) -> set:
+    """ names that hold listed profiles found on a gene: bound to an intersection with the condition's options, copied
+        from such a name, a dictionary such sets are stored into, or the variable of a loop over such a dictionary """
+    tainted: set = set()
+    changed = True
+
+    def is_tainted(expr: ast.AST) -> bool:
+        text = txt(expr)
+        if "intersection" in text and "options" in text:
+            return True
+        return any(isinstance(n, ast.Name) and n.id in tainted for n in ast.walk(expr))
+    while changed:
+        changed = False
+        for node in walk_local(func):
+            new = set()
+            if isinstance(node, (ast.Assign, ast.AnnAssign)) and getattr(node, "value", None) is not None and is_tainted(node.value):
+                for target in (node.targets if isinstance(node, ast.Assign) else [node.target]):
+                    base = target
+                    while isinstance(base, (ast.Subscript, ast.Attribute)):
+                        base = base.value
+                    if isinstance(base, ast.Name):
+                        new.add(base.id)
+            elif isinstance(node, ast.AugAssign) and is_tainted(node.value):
+                base = node.target
+                while isinstance(base, (ast.Subscript, ast.Attribute)):
+                    base = base.value
+                if isinstance(base, ast.Name) and not (isinstance(node.value, ast.Call) and call_name(node.value) == "len"):
+                    new.add(base.id)
+            elif isinstance(node, ast.Call) and last_attr(node) in ("update", "add", "append", "extend") and node.args \
+                    and is_tainted(node.args[0]):
+                base = node.func.value  # type: ignore[attr-defined]
+                while isinstance(base, (ast.Subscript, ast.Attribute)):
+                    base = base.value
+                if isinstance(base, ast.Name):
+                    new.add(base.id)
+            elif isinstance(node, ast.For) and is_tainted(node.iter):
+                new |= {n.id for n in ast.walk(node.target) if isinstance(n, ast.Name)}
+            if new - tainted:
+                tainted |= new
+                changed = True
+    return tainted
+
+
 def r01_6(ctx: Ctx) -> None:
     qual = "MinimumCondition.is_satisfied"
     func = ctx.fn(RP, qual)
@@ -540,9 +583,9 @@ def r01_6(ctx: Ctx) -> None:
             ctx.cannot("R01.6", RP, ret, qual, f"return#{index}", str(err))
     # the count accumulates by += len(new hits) of in-range genes, starting from the own-gene hits
     incs = [n for n in walk_local(func) if isinstance(n, ast.AugAssign) and isinstance(n.op, ast.Add)]
-    ok = len(incs) == 1 and txt(incs[0].value).startswith("len(") and \
-        any("intersection" in txt(v) for name in {x.id for x in ast.walk(incs[0].value) if isinstance(x, ast.Name)}
-            for v in bound_from(func, name))
+    found = _derived_from_options(func)
+    ok = len(incs) == 1 and isinstance(incs[0].value, ast.Call) and call_name(incs[0].value) == "len" and \
+        any(isinstance(x, ast.Name) and x.id in found for x in ast.walk(incs[0].value))
     ctx.ob("R01.6", RP, incs[0] if incs else func, qual, "count accumulation", ok,
            "neighbour contributions add the number of listed profiles found in that neighbour",
            form="; ".join(stmt_key(i) for i in incs))
@@ -619,18 +662,41 @@ def _sources_through_cache(func: ast.AST, name: str) -> List[ast.AST]:
     if direct:
         return direct
     out: List[ast.AST] = []
+
+    def tuples(expr: ast.AST, depth: int = 0) -> List[ast.Tuple]:
+        """ the tuple displays that `expr` may hold, looking through locals and through a keyed cache """
+        if depth > 5:
+            return []
+        if isinstance(expr, ast.Tuple):
+            return [expr]
+        if isinstance(expr, ast.Name):
+            found: List[ast.Tuple] = []
+            for value in bound_from(func, expr.id):
+                found += tuples(value, depth + 1)
+            return found
+        cache = None
+        if isinstance(expr, ast.Subscript):
+            cache = txt(expr.value)
+        elif isinstance(expr, ast.Call) and last_attr(expr) == "get" and isinstance(expr.func, ast.Attribute):
+            cache = txt(expr.func.value)
+        if cache is None:
+            return []
+        found = []
+        for store in walk_local(func):
+            if isinstance(store, ast.Assign) and isinstance(store.targets[0], ast.Subscript) and txt(store.targets[0].value) == cache:
+                found += tuples(store.value, depth + 1)
+        return found
     for node in walk_local(func):
-        if isinstance(node, ast.Assign) and isinstance(node.targets[0], ast.Tuple) and isinstance(node.value, ast.Subscript):
+        if isinstance(node, ast.Assign) and isinstance(node.targets[0], ast.Tuple):
             names = [txt(e) for e in node.targets[0].elts]
             if name not in names:
                 continue
-            index, cache = names.index(name), txt(node.value.value)
-            for store in walk_local(func):
-                if isinstance(store, ast.Assign) and isinstance(store.targets[0], ast.Subscript) \
-                        and txt(store.targets[0].value) == cache and isinstance(store.value, ast.Tuple) \
-                        and len(store.value.elts) == len(names):
-                    elem = store.value.elts[index]
-                    out += [v for v in bound_from(func, elem.id)] if isinstance(elem, ast.Name) else [elem]
+            index = names.index(name)
+            for display in tuples(node.value):
+                if len(display.elts) != len(names):
+                    continue
+                elem = display.elts[index]
+                out += [v for v in bound_from(func, elem.id)] if isinstance(elem, ast.Name) and elem.id != name else [elem]
     return out
 
 
